@@ -22,7 +22,7 @@ def impl_fn(p, trait, self_ty, name):
         if i["self_ty"] == self_ty:
             for it in i["items"]:
                 if it["name"] == name and it["key"] in p.funcs:
-                    return p.funcs[it["key"]]
+                    return p.fn(it["key"])
     raise AnchorLost("%s::%s for %s not found" % (trait, name, self_ty))
 
 
@@ -113,6 +113,17 @@ def r3_layout(ctx):
                 t2 = f.term(b2)
                 if (callee_of(t2) or {}).get("name") == "index_mut":
                     rng = an._range_of(f, t2["a"][1], (b2, f.INF - 1), None, 0, frozenset())
+            # `let (head, tail) = data.split_at_mut(dlen)`: head = ..dlen, tail = dlen..
+            for b2 in dst["calls"]:
+                t2 = f.term(b2)
+                if (callee_of(t2) or {}).get("name") == "split_at_mut" and len(t2["a"]) == 2 and t2.get("dest"):
+                    mid = an.eval_op(f, t2["a"][1], (b2, f.INF - 1))
+                    halves = {ir.place_fields(pl)[0] if False else (pl[1].split(":")[0] if len(pl) > 1 and isinstance(pl[1], str) else None)
+                              for pl in dst["places"] if pl[0] == t2["dest"][0]}
+                    if mid == (dlen, dlen) and ".0" in halves and ".1" not in halves:
+                        rng = ("to", None, (dlen, dlen))
+                    if mid == (dlen, dlen) and ".1" in halves and ".0" not in halves:
+                        rng = ("from", (dlen, dlen), None)
             if rng and rng[0] == "to" and rng[2] == (dlen, dlen) and 1 in src["args"]:
                 seed_ok = True
             if rng and rng[0] == "from" and rng[1] == (dlen, dlen) and le and le[0][0] in src["calls"]:
